@@ -27,6 +27,8 @@ def run(ctx, db, tier):
     sync_block(ctx, db)
     one_step(ctx, db)
     state_recorded(ctx, db)
+    postfix_snapshots(ctx, db)
+    done_means_returned(ctx, db)
     from . import C01
     C01.has_value_agrees(ctx, db, 'C13.has-value-agrees')
     atomic.check_roles(ctx, db, 'C13.block-flag-orders', only_objects={P + '::_block'}, floor=3)
@@ -318,3 +320,86 @@ def state_recorded(ctx, db):
             elif (ret_expr(tr) or '') not in ('this->_state', ws[-1].get('rhs'), '(%s = %s)' % (ws[-1].get('path'), ws[-1].get('rhs'))):      # return _state = x;
                 bad = bad or ('the value returned (%s) is not the value recorded' % ret_expr(tr), tr)
         ctx.ob(rid, f, f['key'], bad is None and len(trs) > 0, 'the step taken is recorded' + ('' if not bad else ' -- ' + bad[0]), desc=bad[0] if bad else None, trace=fmt_trace(bad[1]) if bad else None)
+
+
+def postfix_snapshots(ctx, db):
+    """it++ returns the element the iterator stood on.  The generator hands out a reference to the value the body yielded; advancing the
+    generator overwrites or destroys that object, so the element has to be copied out before the advance"""
+    rid = ctx.rule('C13.postfix-snapshots-first', 'ORDER', 'generator_iterator::operator++(int): the current element is copied/moved into a local by value before the generator is advanced, no '
+                   'reference into the generator\'s current value is kept across the advance, and that local is what is returned', floor=1)
+    T = htracer(db)
+    fns = [f for f in db.fns('cocls::generator_iterator::operator++') if len(f['params']) == 1 and 'subscriber' not in (f.get('class_inst') or '')]
+    if not fns:
+        raise Broken('anchor vanished: generator_iterator::operator++(int) is not instantiated')
+    seen = set()
+    for f in fns:
+        if f['key'] in seen:
+            continue
+        seen.add(f['key'])
+        trs = [t for t in T.traces(f) if live(t)]
+        ctx.paths(rid, len(trs))
+        bad = None
+        for tr in trs:
+            adv = index_of(tr, lambda ev: ev.k == 'call' and (norm(ev.get('callee')) in ('cocls::generator::next', 'cocls::generator_iterator::operator++')))
+            if adv < 0:
+                bad = bad or ('the iterator is not advanced', tr); continue
+            snap = [(i, it) for i, it in enumerate(tr) if it.k == 'decl' and 'cocls::generator::value' in (it.get('init') or '') and it.get('depth', 0) == 0]
+            byval = [(i, it) for i, it in snap if not it.get('ref') and not it.get('ptr') and i < adv]
+            refs = [(i, it) for i, it in snap if it.get('ref') or it.get('ptr')]
+            late = [it for it in tr[adv + 1:] if it.k == 'call' and norm(it.get('callee')) == 'cocls::generator::value']
+            if refs:
+                bad = bad or ('a reference into the generator\'s current value (%s) is kept across the advance: it then names the next element or a destroyed object' % refs[0][1].get('var'), tr)
+            elif late:
+                bad = bad or ('the value is read after the generator was advanced: the next element is returned instead of the current one', tr)
+            elif not byval:
+                bad = bad or ('the current element is not copied out before the advance', tr)
+            elif ('local:' + (byval[0][1].get('var') or '?').replace('local:', '')) not in (ret_expr(tr) or ''):
+                bad = bad or ('the copy taken before the advance is not what is returned (%s)' % ret_expr(tr), tr)
+        ctx.ob(rid, f, f['key'], bad is None and bool(trs), 'it++ returns a copy of the element taken before advancing' + ('' if not bad else ' -- ' + bad[0]), desc=bad[0] if bad else None,
+               trace=fmt_trace(bad[1]) if bad else None)
+
+
+def done_means_returned(ctx, db, rid_='C13.done-means-returned'):
+    """every access style decides "end of sequence" by promise_type::done(); an exception that escaped the body is not an end - it is
+    delivered at that position (unblock_future tests done() first, next_awt::await_resume reports !done() and value() rethrows)"""
+    rid = ctx.rule(rid_, 'PATHS', 'generator::promise_type::done() answers exactly the flag set by return_void (_done) on every path: a generator that left its body by an '
+                   'exception is not "done" (the consumer would see a plain end of sequence and the exception would never surface); the public generator::done() answers '
+                   'true for an empty handle and otherwise exactly what the promise\'s done() says (not the coroutine handle\'s done(), which is also true after an exception)', floor=2)
+    for f, trs in traces_of(db, P + '::done', per_instance=False):
+        trs = [t for t in trs if live(t)]
+        ctx.paths(rid, len(trs))
+        bad = None
+        for tr in trs:
+            r = re.sub(r'\s+', '', ret_expr(tr) or '')
+            o = origin_in_trace(tr, len(tr), ret_expr(tr))[0] if ret_expr(tr) else None
+            if r not in ('this->_done', '(this->_done==true)', '(this->_done!=false)') and (o or '') != 'this->_done':
+                c = ret_const(tr)
+                rb = ret_bool(tr)
+                # a constant answer is fine when it is the value of the flag on that path (if (_done) return true; return false;)
+                flag = next((bool(it.val) for it in tr if it.k == 'branch' and (it.path or '') == 'this->_done'), None)
+                if c is not None and flag is not None and bool(c) == flag:
+                    continue
+                bad = bad or ('done() answers %s, not the returned-normally flag' % (ret_expr(tr) or c), tr)
+        ctx.ob(rid, f, f['key'], bad is None and bool(trs), 'done() is the flag set by return_void' + ('' if not bad else ' -- ' + bad[0]), desc=bad[0] if bad else None, trace=fmt_trace(bad[1]) if bad else None)
+    for f, trs in traces_of(db, 'cocls::generator::done', per_instance=False, helpers=False):
+        trs = [t for t in trs if live(t)]
+        ctx.paths(rid, len(trs))
+        bad = None; n = 0
+        for tr in trs:
+            hd = [c for c in calls(tr) if norm(c.get('callee')) == 'std::coroutine_handle::done']
+            pd = [c for c in calls(tr) if norm(c.get('callee')) == P + '::done']
+            have = None
+            for i, it in enumerate(tr):
+                nt = null_test(tr, i) if it.k == 'branch' else None
+                if nt and (nt[0] or '').endswith('_promise'):
+                    have = bool(nt[1])
+            if hd:
+                bad = bad or ('done() asks the coroutine handle: a generator that ended by an exception is final-suspended too and would be reported as finished normally', tr)
+            elif have is True or (have is None and not pd):
+                n += 1
+                if len(pd) != 1:
+                    bad = bad or ('done() of a live generator does not answer through the promise\'s done()', tr)
+            elif have is False and ret_const(tr) not in (1, None):
+                bad = bad or ('an empty generator is not reported as done', tr)
+        ctx.ob(rid, f, f['key'], bad is None and bool(trs), 'generator::done() = no coroutine, or the promise says it returned' + ('' if not bad else ' -- ' + bad[0]), desc=bad[0] if bad else None,
+               trace=fmt_trace(bad[1]) if bad else None)
